@@ -1,10 +1,11 @@
 """C04: two SD stacks converge (offers discovered, subscriptions established) after any sequence of
 graceful stop/start, crash/restart and datagram loss / duplication / reordering."""
+import json
 import random
 
 from .. import annenv, monpass, net2
 from ..sdenv import FOREVER
-from .common import judge
+from .common import Mode1, judge
 
 CONFIGS = {
     # name: (timing, subscribe TTL, refresh, bound B = TTL + cyclic (+ start-up latency), loss faults allowed)
@@ -152,7 +153,39 @@ def payload(tr):
     return {"faults": tr["faults"], "config": tr["config"], "trace": tr["ev"]}
 
 
+def sub_cfg(name, kinds, **kw):
+    d = {"Cfg <- C04_fin": "Cfg <- C04_" + name, "MCfg <- M_fin": "MCfg <- M_" + name, "Kinds <- NodeKinds": "Kinds <- " + kinds}
+    for k, v in kw.items():
+        key = {"faults": "MaxFaults = 2", "sched": 'Sched = "prio"', "window": "FaultWindow = 9", "horizon": "Horizon = 40"}[k]
+        d[key] = key.split("=")[0] + "= " + (('"%s"' % v) if k == "sched" else str(v))
+    return d
+
+
+def mode1(ctx):
+    """exhaustive TLC runs of the two-stack model SD2.tla x Mon_C04"""
+    m1 = Mode1(ctx, "MC_C04")
+    m1.holds("fin, crash/stop of either stack, 2 steps", "C04_quick.cfg")
+    m1.holds("fin, all disturbances, 2 steps", "C04_quick.cfg", sub_cfg("fin", "AllKinds"))
+    m1.holds("inf, 2 steps", "C04_quick.cfg", sub_cfg("inf", "InfKinds"))
+    m1.holds("inf1, 2 steps", "C04_quick.cfg", sub_cfg("inf1", "InfKinds"))
+    if not ctx.quick:
+        m1.holds("fin, all disturbances, 2 steps, free interleaving of the two loops", "C04_quick.cfg",
+                 sub_cfg("fin", "AllKinds", sched="any"), timeout=3000)
+        for name in ("fin", "fin1", "init"):
+            m1.holds(name + ", all disturbances, 3 steps", "C04_quick.cfg", sub_cfg(name, "AllKinds", faults=3, horizon=44), timeout=3000)
+        m1.holds("fin, crash/stop, 4 steps", "C04_quick.cfg", sub_cfg("fin", "NodeKinds", faults=4, horizon=44), timeout=3000)
+        for name in ("inf", "inf1"):
+            m1.holds(name + ", 4 steps", "C04_quick.cfg", sub_cfg(name, "InfKinds", faults=4), timeout=3000)
+            m1.holds(name + ", 2 steps, free interleaving", "C04_quick.cfg", sub_cfg(name, "InfKinds", sched="any"), timeout=3000)
+    # non-vacuity: deviations of the design that must break convergence
+    m1.caught("Sw_StaleTimerOnRefresh", "C04_quick.cfg")
+    m1.caught("Sw_SubStopForgetsList", "C04_quick.cfg")
+    m1.caught("Sw_QueueLatestWins", "C04_quick.cfg", sub_cfg("inf1", "InfKinds"))
+    return m1
+
+
 def check(ctx):
+    m1 = mode1(ctx)
     traces = traces_for(ctx.seed, ctx.pick(300, 5000), ctx.pick(4, 7))
     # the recorded reproduction of known finding F1 is part of every run
     f1 = [{"t": 26, "kind": "crash", "node": "wat"}, {"t": 27, "kind": "restart", "node": "wat"},
@@ -168,17 +201,38 @@ def check(ctx):
             kn = [p for p in kn if p[0] == "stop"]
         traces += sweep(name, kn, range(0, ctx.pick(10, 24)), ctx.pick([0, 1, 3, 13], [0, 1, 2, 3, 4, 5, 8, 13, 20]))
     bad, ms = judge(ctx, "Mon_C04", traces, "two-stack runs", payload)
-    cov = dict(evaluations=len(traces), distinct_nontrivial=len({str(t["faults"]) + t["config"] for t in traces if t["faults"]}),
-               rule="fault schedules for two real stacks on a simulated network: (a) every tick of the first 10-24 x every gap for "
+    # trace validation: is every real two-stack run a behaviour of SD2.tla ?
+    from .. import conform
+    acc = total = 0
+    worst = None
+    for name in CONFIGS:
+        sel = [t for t in traces if t["config"] == name][: ctx.pick(30, 250)]
+        for t in sel:
+            t["ticks"] = conform.ticks_of([e for e in t["ev"] if e.get("k") != "adv"])
+        res, _ = conform.run2({"Match": "C04_Match", "Cfg": "C04_" + name, "Sw": "AllOff"}, sel)
+        for t, r in zip(sel, res):
+            total += 1
+            acc += bool(r[0])
+            if not r[0] and worst is None:
+                worst = (name, t["faults"], r[1], r[2])
+    if worst:
+        ctx.note("spec-drift property=C04 traces=%d of %d not explained by SD2.tla; first: config %s faults %s matched %d of %d instants"
+                 % (total - acc, total, worst[0], json.dumps(worst[1])[:300], worst[2], worst[3]))
+    cov = dict(states=m1.states, transitions=m1.trans, tlc_runs=m1.runs, evaluations=len(traces), distinct_nontrivial=len({str(t["faults"]) + t["config"] for t in traces if t["faults"]}),
+               rule="TLC: two-stack model SD2.tla (two instances of the stack of SDCore.tla, network with loss / drop / duplication / "
+                    "delay, crash / restart / stop / start) x Mon_C04, exhaustive over every placement of 2 (thorough: 3-4) "
+                    "disturbance steps in the first 10 ticks, every order of simultaneously due timers (thorough: every interleaving "
+                    "of the two loops); real code: fault schedules for two real stacks on a simulated network: (a) every tick of the first 10-24 x every gap for "
                     "crash+restart / stop+start of either peer and a loss window, finite TTL with refresh and infinite TTL without; "
                     "(b) seeded random multi-fault schedules (up to 4-7 disturbances: crash, restart, stop, start, loss window, "
                     "single drop / duplication / delay) in five timing configurations (one with infinite TTLs and a send-collection "
                     "window, graceful stop/start only); distinct = distinct non-empty schedules; "
                     "judged by the TLA+ monitor Mon_C04 in TLC at every idle instant",
                monitor_traces=len(traces), monitor_failures=bad, monitor_states=ms,
+               traces_validated_against_impl=acc, conformance_traces=total, spec_drift=total - acc,
                samples=[{"config": traces[5]["config"], "faults": traces[5]["faults"],
                          "trace": [e for e in traces[5]["ev"] if e["k"] not in ("idle", "adv")][:16]}])
-    return ctx.finish("fault_enumeration", cov, assumptions=[
+    return ctx.finish("model_checking", cov, assumptions=[
         "both stacks run on virtual loops with a shared clock; datagrams are carried by the harness network with zero latency "
         "unless a delay fault is applied", "bound B = TTL + cyclic period + configured start-up latencies (DESIGN §9)"])
 
